@@ -4,6 +4,7 @@
 // (a std::list LRU; std::set / std::multiset) and appends PROPFAIL@<op index> when the implementation's own
 // observable behaviour violates the property.
 //
+// every output line starts with "R " (sanitizer reports share the stream).
 // case line:   lruset|lrumap|splayset|splaymulti  tok tok ...
 //              exh|exhv <kind> <nkeys> <len>      (bounded-exhaustive: all histories of that length)
 // LRU tokens:  P,k[,v] T,k TI,k G,k GT,k E,k EI,k X,k S O C
@@ -132,12 +133,15 @@ static bool run_lru(const std::vector<Op>& ops, Sink& out, int& propfail) {
                 I.c.clear(); out.res('u'); R.l.clear();
             } else { out.res('?'); }
             if (I.c.size() != R.l.size()) fail();
+            if (propfail >= 0) break;   // implementation and reference have diverged: stop this history
             ++idx;
         }
         // observe the whole recency order: drain by pop
         out.sep('|');
         bool first = true;
-        while (valid && I.c.size() > 0) {
+        size_t guard = ops.size() + 4;   // a correct cache holds at most one entry per put
+        while (valid && propfail < 0 && I.c.size() > 0) {
+            if (guard-- == 0) { if (propfail < 0) propfail = idx; break; }
             std::pair<int, int> p = I.pop(); out.kv(p.first, p.second, first); first = false;
             if (R.l.empty() || p != R.l.back()) { if (propfail < 0) propfail = idx; if (!R.l.empty()) R.l.pop_back(); }
             else R.l.pop_back();
@@ -206,6 +210,7 @@ static void run_splay(const std::vector<Op>& ops, Sink& out, int& propfail) {
             bool first = true;
             for (int k : io) { out.key(k, first); first = false; }
             if (s != R.size() || T.empty() != R.empty() || io.size() != R.size() || !std::equal(io.begin(), io.end(), R.begin())) fail();
+            if (propfail >= 0) break;   // diverged: stop this history
             ++idx;
         }
     }
@@ -259,14 +264,14 @@ int main(int argc, char** argv) {
                 bool valid = run_kind(k2, ops, sk, pf);
                 if (valid) {
                     ++total; H = (H * 1000003ULL + sk.h) & ((1ULL << 62) - 1);
-                    if (verbose) { std::string c = k2; for (int i : ix) c += " " + al[i]; printf("%s => %s%s\n", c.c_str(), sk.s.c_str(), pf >= 0 ? " PROPFAIL" : ""); }
+                    if (verbose) { std::string c = k2; for (int i : ix) c += " " + al[i]; printf("R %s => %s%s\n", c.c_str(), sk.s.c_str(), pf >= 0 ? " PROPFAIL" : ""); fflush(stdout); }
                     if (pf >= 0 && firstfail == "-") { firstfail = k2; for (int i : ix) firstfail += "_" + al[i]; }
                 }
                 int p = len - 1;
                 while (p >= 0 && ++ix[p] == (int)al.size()) { ix[p] = 0; --p; }
                 if (p < 0) break;
             }
-            printf("exh count=%llu hash=%llu fail=%s\n", (unsigned long long)total, (unsigned long long)H, firstfail.c_str());
+            printf("R exh count=%llu hash=%llu fail=%s\n", (unsigned long long)total, (unsigned long long)H, firstfail.c_str());
             fflush(stdout);
             continue;
         }
@@ -274,7 +279,7 @@ int main(int argc, char** argv) {
         while (ss >> tok) ops.push_back(parse_tok(tok));
         Sink sk; int pf;
         bool valid = run_kind(kind, ops, sk, pf);
-        printf("%s%s%s\n", sk.s.c_str(), valid ? "" : " INVALID-HISTORY", pf >= 0 ? (" PROPFAIL@" + std::to_string(pf)).c_str() : "");
+        printf("R %s%s%s\n", sk.s.c_str(), valid ? "" : " INVALID-HISTORY", pf >= 0 ? (" PROPFAIL@" + std::to_string(pf)).c_str() : "");
         fflush(stdout);
     }
     return 0;
